@@ -78,6 +78,33 @@ Theorem C18_end_frame_monotone : forall fps e e',
 Proof. exact eframe_mono. Qed.
 Print Assumptions C18_end_frame_monotone.
 
+(** ** The active roll painted by sequence_to_pianoroll, for any note list *)
+
+(* occupancy test off, onsets overlapping, no blank frame, non-negative start frames: a cell is active
+   iff it lies inside the roll and some note with min_pitch <= pitch <= max_pitch covers it with
+   [int(s*fps), max(int(s*fps)+1, ceil(e*fps))) — out-of-range pitches are ignored *)
+Theorem C18_active_frames : forall c notes,
+  c_blank c = false -> c_overlap c = true -> gt0 (c_occ c) = false ->
+  0 <= rows_of c -> 0 <= cols_of c ->
+  (forall n, In n notes -> in_range c n = true -> 0 <= sframe (c_fps c) (n_start n)) ->
+  forall i p, 0 <= i -> 0 <= p ->
+  (mget (active_roll c notes) i p = true <->
+   (i < rows_of c /\
+    exists n, In n notes /\ in_range c n = true /\ p = n_pitch n - c_min_pitch c /\
+              sframe (c_fps c) (n_start n) <= i <
+              Z.max (sframe (c_fps c) (n_start n) + 1) (eframe (c_fps c) (n_end n)))).
+Proof. exact active_frames_proof. Qed.
+Print Assumptions C18_active_frames.
+
+(* the roll has int(total_time*fps + 1) rows and max_pitch - min_pitch + 1 columns *)
+Theorem C18_active_roll_shape : forall c notes,
+  c_blank c = false -> c_overlap c = true -> gt0 (c_occ c) = false ->
+  0 <= rows_of c -> 0 <= cols_of c ->
+  (forall n, In n notes -> in_range c n = true -> 0 <= sframe (c_fps c) (n_start n)) ->
+  rect (active_roll c notes) (Z.to_nat (roll_rows (c_fps c) (c_total c))) (Z.to_nat (c_max_pitch c - c_min_pitch c + 1)).
+Proof. exact active_roll_shape_proof. Qed.
+Print Assumptions C18_active_roll_shape.
+
 (** ** runs_decoded: the run-length decoder (all matrices, all onset / offset predictions) *)
 
 (* For every pitch the spans handed to end_pitch are exactly the declarative note spans
